@@ -18,6 +18,7 @@ import (
 	"os"
 	"os/exec"
 	"path/filepath"
+	"reflect"
 	"runtime"
 	"strings"
 	"sync"
@@ -31,7 +32,7 @@ import (
 func init() {
 	addRun("C18", "written files (xref tables and xref/object streams, Flate/LZW/ASCII85/RunLength streams, shared, chained and cyclic references, merged field/widget dictionaries) read by 2-4 goroutines sharing one Reader and Extractor with random mixes of Reader.Get / DecodeStream / Decode / DecodeExclusive / StoreOrLoadPair; each result compared with the same call made alone; pointer identity per (reference, type) across goroutines. A case is one file x goroutine mix; non-trivial when at least two goroutines touched a common reference.", runConcFiles)
 	addRun("C18", "independent Writers and Readers in parallel goroutines versus sequentially (identical bytes / objects), concurrent use of the predefined-CMap and CID-mapping caches; thorough tier: all real-concurrency runs repeated in a -race build, races are violations. A case is one batch of files.", runConcParallel)
-	addRun("C18race", "child process of C18 (race-detector build)", func(c *Ctx) { runConcFiles(c); runConcParallelInner(c) })
+	addRun("C18race", "child process of C18 (race-detector build)", func(c *Ctx) { runConcFirstLoads(c); runConcFiles(c); runConcParallelInner(c) })
 	addReplay("C18", "files", replayConcFiles)
 	addReplay("C18", "parallel", func(string) (bool, string) {
 		return true, "not replayable deterministically: re-run ./check C18 thorough"
@@ -752,6 +753,196 @@ func runConcParallelInner(c *Ctx) {
 	c.Stat("package-level cache probes")
 }
 
+// ---------------------------------------------------------------- first loads of package-level caches
+
+// concListNames lists the entries of an embedded resource directory of the library (file names
+// without suffix), so that every predefined CMap / CID mapping is exercised.
+func concListNames(dir, suffix string, fallback []string) []string {
+	ents, err := os.ReadDir(filepath.Join(concRepo(), dir))
+	if err != nil {
+		return fallback
+	}
+	var names []string
+	for _, e := range ents {
+		if strings.HasSuffix(e.Name(), suffix) {
+			names = append(names, strings.TrimSuffix(e.Name(), suffix))
+		}
+	}
+	if len(names) == 0 {
+		return fallback
+	}
+	return names
+}
+
+func concMapPtr(m any) uintptr {
+	v := reflect.ValueOf(m)
+	if v.Kind() != reflect.Map || v.IsNil() {
+		return 0
+	}
+	return v.Pointer()
+}
+
+// runConcFirstLoads exercises every exported function which touches mutex-guarded package-level
+// state while the caches are being filled: loaders perform the FIRST load of every predefined CMap
+// and every CID text mapping (in different orders) while pollers call the read-only accessors
+// ((*cmap.File).IsPredefined, lookups of cached and uncached names).  It must run before anything
+// else has touched these caches; under the race detector (child process, caches empty) an
+// unsynchronised read next to a first load is a reported race.
+func runConcFirstLoads(c *Ctx) {
+	cmapNames := concListNames("font/cmap/predefined", ".gz", []string{"Identity-H", "Identity-V", "90ms-RKSJ-H", "GBK-EUC-H", "UniJIS-UTF16-H", "KSCms-UHC-H"})
+	var ros [][2]string
+	for _, n := range concListNames("font/mapping/resources", "-UCS2.gz", []string{"Adobe-Japan1", "Adobe-GB1"}) {
+		if i := strings.LastIndex(n, "-"); i > 0 {
+			ros = append(ros, [2]string{n[:i], n[i+1:]})
+		}
+	}
+	ros = append(ros, [2]string{"Adobe", "Nonexistent"})
+	r := c.R.Fork()
+	nLoaders := 1 + r.Intn(2)
+	nPollers := 1 + r.Intn(2)
+	var mu sync.Mutex
+	loaded := map[string]*cmap.File{} // what the loaders got, per name
+	mapPtr := map[string]uintptr{}
+	mapLen := map[string]int{}
+	var fails []string
+	fail := func(format string, a ...any) {
+		mu.Lock()
+		if len(fails) < 10 {
+			fails = append(fails, fmt.Sprintf(format, a...))
+		}
+		mu.Unlock()
+	}
+	var done sync.WaitGroup
+	stop := make(chan struct{})
+	guard := func(what string, f func()) {
+		defer func() {
+			if rec := recover(); rec != nil {
+				fail("%s panicked: %v", what, rec)
+			}
+		}()
+		f()
+	}
+	for l := 0; l < nLoaders; l++ {
+		done.Add(1)
+		go func(l int) {
+			defer done.Done()
+			guard("loader", func() {
+				for i := range cmapNames {
+					name := cmapNames[i]
+					if l == 1 {
+						name = cmapNames[len(cmapNames)-1-i] // the second loader comes from the other end
+					}
+					f, err := cmap.Predefined(name)
+					if err != nil || f == nil {
+						fail("cmap.Predefined(%s) failed: %v", name, err)
+						continue
+					}
+					if !f.IsPredefined() {
+						fail("the file returned by cmap.Predefined(%s) is not IsPredefined()", name)
+					}
+					mu.Lock()
+					if old, ok := loaded[name]; ok && old != f {
+						fails = append(fails, fmt.Sprintf("cmap.Predefined(%s) returned two different objects", name))
+					}
+					loaded[name] = f
+					mu.Unlock()
+					if i%16 == 0 && i/16 < len(ros) {
+						ro := ros[(i/16+l)%len(ros)]
+						m, err := mapping.GetCIDTextMapping(ro[0], ro[1])
+						rev, err2 := mapping.GetTextToCIDMapping(ro[0], ro[1])
+						if ro[1] == "Nonexistent" {
+							if err == nil || err2 == nil {
+								fail("mapping for %s-%s should not exist", ro[0], ro[1])
+							}
+							continue
+						}
+						if err != nil || err2 != nil || len(m) == 0 || len(rev) == 0 {
+							fail("CID mappings for %s-%s failed: %v %v", ro[0], ro[1], err, err2)
+							continue
+						}
+						key := ro[0] + "-" + ro[1]
+						mu.Lock()
+						if p, ok := mapPtr[key]; ok && (p != concMapPtr(m) || mapLen[key] != len(m)) {
+							fails = append(fails, "mapping.GetCIDTextMapping("+key+") returned two different maps")
+						}
+						mapPtr[key], mapLen[key] = concMapPtr(m), len(m)
+						mu.Unlock()
+					}
+				}
+			})
+		}(l)
+	}
+	polls := make([]int, nPollers)
+	var pollersDone sync.WaitGroup
+	for g := 0; g < nPollers; g++ {
+		pollersDone.Add(1)
+		go func(g int) {
+			defer pollersDone.Done()
+			guard("poller", func() {
+				for i := 0; ; i++ {
+					select {
+					case <-stop:
+						return
+					default:
+					}
+					name := cmapNames[(i*7+g*13)%len(cmapNames)]
+					// a fresh object is never the predefined one, cached or not
+					if (&cmap.File{Name: name}).IsPredefined() {
+						fail("a fresh cmap.File named %s claims to be predefined", name)
+					}
+					mu.Lock()
+					f := loaded[name]
+					mu.Unlock()
+					if f != nil && !f.IsPredefined() {
+						fail("the predefined CMap %s is no longer IsPredefined()", name)
+					}
+					if i%64 == 0 {
+						ro := ros[(i/64+g)%len(ros)]
+						key := ro[0] + "-" + ro[1]
+						mu.Lock()
+						p, known := mapPtr[key]
+						mu.Unlock()
+						if known {
+							// polls the cached entry while other entries are being loaded
+							m, err := mapping.GetCIDTextMapping(ro[0], ro[1])
+							if err != nil || concMapPtr(m) != p {
+								fail("mapping.GetCIDTextMapping(%s) changed its answer", key)
+							}
+							if _, err := mapping.GetTextToCIDMapping(ro[0], ro[1]); err != nil {
+								fail("mapping.GetTextToCIDMapping(%s) failed: %v", key, err)
+							}
+						}
+					}
+					polls[g]++
+					if i%8 == 0 {
+						runtime.Gosched()
+					}
+				}
+			})
+		}(g)
+	}
+	done.Wait()
+	close(stop)
+	pollersDone.Wait()
+	// afterwards everybody sees the same objects
+	for _, name := range cmapNames {
+		f, err := cmap.Predefined(name)
+		if err != nil || f != loaded[name] {
+			fail("cmap.Predefined(%s) after the loads: %v, same object: %v", name, err, f == loaded[name])
+		}
+	}
+	total := 0
+	for _, n := range polls {
+		total += n
+	}
+	c.Case("first loads of package-level caches", true)
+	c.StatN("predefined CMaps loaded for the first time under concurrent polling", len(cmapNames))
+	c.StatN("accessor polls during first loads", total)
+	for _, f := range fails {
+		c.Violate("parallel", "package-cache-first-load", f, "")
+	}
+}
+
 // concReadAllObjects opens the file with its own Reader and returns a canonical dump.
 func concReadAllObjects(d *concDoc) string {
 	rd, err := pdf.NewReader(bytes.NewReader(d.data), int64(len(d.data)), nil)
@@ -781,10 +972,12 @@ func concReadAllObjects(d *concDoc) string {
 }
 
 func runConcParallel(c *Ctx) {
-	if concUnlocked {
-		return
+	if concUnlocked || concPkgUnguarded {
+		c.Stat("in-process runs on package-level caches skipped: unguarded access in the inventory")
+	} else {
+		runConcFirstLoads(c)
+		runConcParallelInner(c)
 	}
-	runConcParallelInner(c)
 	if !c.Thorough {
 		c.Stat("race detector: thorough tier only")
 		return
